@@ -146,6 +146,23 @@ func (p *Prog) TraceBackPath(start ssa.Value, startPath []int, opts TraceOpts, v
 		case *ssa.Alloc:
 			// a local object filled through library methods (strings.Builder, bytes.Buffer, hash): what is written into
 			// it flows out of it
+			if opts.ThroughOps {
+				// a pointer to a local array/struct depends on what was stored into it
+				p.traceLoad(x, nil, opts, push)
+				if refs := x.Referrers(); refs != nil {
+					for _, r := range *refs {
+						if fa, ok := r.(*ssa.FieldAddr); ok && fa.X == x {
+							if rr := fa.Referrers(); rr != nil {
+								for _, u := range *rr {
+									if st, ok := u.(*ssa.Store); ok && st.Addr == fa {
+										push(st.Val, nil)
+									}
+								}
+							}
+						}
+					}
+				}
+			}
 			if opts.ThroughOps && opts.ThroughExtern {
 				if refs := x.Referrers(); refs != nil {
 					for _, r := range *refs {
